@@ -29,7 +29,23 @@ def strategy(draw):
     n = draw(st.one_of(st.integers(16, 200), st.integers(16, 800)))
     nwin = draw(st.integers(1, 6))
     exp = draw(st.integers(-6, 6))
-    wins = [draw(gen.recording_recipe(n=n, dt=dt, scale_exp=(exp, exp), dfn_range=(0, 0))) for _ in range(nwin)]
+    many = draw(gen.chance(30))
+    if many:
+        # long deployments: hundreds of (short) windows in one call
+        nwin = draw(st.sampled_from([129, 130, 200, 257, 300]))
+        n = draw(st.integers(16, 48))
+        base = draw(gen.recording_recipe(n=n, dt=dt, scale_exp=(exp, exp), dfn_range=(0, 0), kinds=("noise",)))
+        seed0 = draw(gen.seeds32)
+        wins = []
+        for i in range(nwin):
+            w = {k: (dict(v) if isinstance(v, dict) else v) for k, v in base.items()}
+            for c in ("ns", "ew", "vt"):
+                w[c]["seed"] = (seed0 + 7919 * i + 13 * len(c)) % (2 ** 32)
+                w[c]["scale_exp"] = exp + (i % 3) - 1          # windows of different energy
+                w[c].pop("burst", None)
+            wins.append(w)
+    else:
+        wins = [draw(gen.recording_recipe(n=n, dt=dt, scale_exp=(exp, exp), dfn_range=(0, 0))) for _ in range(nwin)]
     fft = draw(st.sampled_from([None, None, "record-length", 2 ** 15, 2 ** 16]))
     nfft = n if fft == "record-length" else max(oracle.nextpow2(n), fft or 0)
     op, bw = draw(gen.operator_and_bandwidth())
@@ -125,7 +141,13 @@ def check_case(case):
         if not same_bits(np.asarray(sc[c].amplitude), np.asarray(raw[c].amplitude) * s2 * s2):
             raise Violation(f"PSD of {c} does not scale with the square of the amplitude (x2^{case['k']}): rel err {rel_err(sc[c].amplitude, np.asarray(raw[c].amplitude) * s2 * s2):.3g}")
     # Welch: several windows = average of the single-window densities (same objects, processed again)
-    if nwin >= 2:
+    if nwin > 12:
+        for ci, c in enumerate(comps):
+            refp = oracle.ref_psd([a[ci] for a in arrays], dt, width, N)
+            if not close(raw[c].amplitude, refp, rtol=1e-10, atol=1e-14 * float(np.max(refp))):
+                raise Violation(f"Welch: PSD of {c} over {nwin} windows is not the average of the single-window densities (rel err {rel_err(raw[c].amplitude, refp):.3g})")
+        labels.append("many-windows")
+    elif nwin >= 2:
         singles = [psd([r])[0] for r in recs]
         for c in comps:
             avg = np.mean([np.asarray(s_[c].amplitude) for s_ in singles], axis=0)
